@@ -887,6 +887,29 @@ class STensor:
     def new_tensor(self, data):
         return tensor(data, dtype=self.dtype)
 
+    def gather(self, dim, index) -> "STensor":
+        """torch.gather: out[i][j][k] = self[i][j][index[i][j][k]] for dim == 2 (and correspondingly for every dim); concrete integer index."""
+        dim %= self.ndim
+        if index.ndim != self.ndim:
+            raise InterpError("RuntimeError", "gather: index and input must have the same number of dimensions")
+        if any(index.shape[d] > self.shape[d] for d in range(self.ndim) if d != dim):
+            raise InterpError("RuntimeError", f"gather: size of index {tuple(index.shape)} exceeds input {tuple(self.shape)} apart from dimension {dim}")
+        st = _strides(self.shape)
+        src = self.flat()
+        ivals = index.flat()
+        vals = []
+        for q, ix in enumerate(itertools.product(*[range(n) for n in index.shape])):
+            v = to_rat(ivals[q])
+            if not v.is_const():
+                raise Unsupported("gather with a symbolic index")
+            k = int(v.const_value())
+            if not 0 <= k < self.shape[dim]:
+                raise InterpError("RuntimeError", f"gather: index {k} is out of bounds for dimension {dim} with size {self.shape[dim]}")
+            pos = list(ix)
+            pos[dim] = k
+            vals.append(src[sum(p_ * s_ for p_, s_ in zip(pos, st))])
+        return STensor.from_flat(vals, list(index.shape), self.dtype)
+
     def repeat(self, *reps) -> "STensor":
         reps = list(_shape_args(reps))
         t = self
